@@ -1,4 +1,5 @@
 import PersimVerif.Lemmas.MatchingLaws
+import PersimVerif.Lemmas.PermEquiv
 import Mathlib.Analysis.SpecialFunctions.Pow.Real
 import Mathlib.Analysis.SpecialFunctions.Sqrt
 import Mathlib.Tactic.Linarith
@@ -314,6 +315,22 @@ theorem bottleneck_le_wasserstein (S : M → Pt) (T : N → Pt) (hS : Proper S) 
     (fun j => diagL2_nonneg (hT j)) hB hW
 
 end Ws
+
+/-! ### the same laws for diagrams given as lists (index type `Fin l.length`) -/
+
+/-- **zero between a list diagram and any permutation of it** (bottleneck) -/
+theorem bottleneck_perm_zero_list {l l' : List Pt} (h : l.Perm l') : IsBn l.get l'.get 0 := by
+  obtain ⟨e, he⟩ := perm_exists_equiv h
+  exact isBottleneck_zero_of_equiv _ _ _ e (fun i => by simp only [cB, he i, linf_self])
+
+/-- **zero between a list diagram and any permutation of it** (Wasserstein) -/
+theorem wasserstein_perm_zero_list {l l' : List Pt} (h : l.Perm l') (hl : ∀ p ∈ l, p.1 ≤ p.2) :
+    IsWs l.get l'.get 0 := by
+  obtain ⟨e, he⟩ := perm_exists_equiv h
+  have hl' : ∀ p ∈ l', p.1 ≤ p.2 := fun p hp => hl p (h.symm.subset hp)
+  exact isMinSum_zero_of_equiv _ _ _ (fun _ _ => euclid_nonneg _ _)
+    (fun i => diagL2_nonneg (hl _ (List.get_mem l i))) (fun j => diagL2_nonneg (hl' _ (List.get_mem l' j)))
+    e (fun i => by simp only [cW, he i, euclid_self])
 
 /-! ### non-vacuity: the hypotheses are met by concrete diagrams -/
 
